@@ -200,6 +200,9 @@ def shrink(case, still_fails, max_evals=400):
 # --------------------------------------------------------------------------
 
 
+MAX_SHRUNK_BUCKETS = 6
+
+
 def new_job_result():
     return {
         "evaluations": 0,
@@ -255,6 +258,7 @@ class Collector:
     def finish(self, run_case, max_shrink_evals):
         r = self.result
         r["nontrivial_hashes"] = sorted(self._hashes)
+        shrunk_buckets = 0
         for bucket in sorted(self._buckets):
             size, case, detail = self._buckets[bucket]
 
@@ -263,7 +267,10 @@ class Collector:
                 return any(b == bucket for b, _ in res.failures)
 
             budget = 3 if bucket.endswith(":hang") else max_shrink_evals
-            small, evals = shrink(case, still_fails, budget)
+            if shrunk_buckets >= MAX_SHRUNK_BUCKETS:
+                budget = 0  # reported with the smallest failing case seen
+            shrunk_buckets += 1
+            small, evals = shrink(case, still_fails, budget) if budget else (case, 0)
             res = safe_run(run_case, small, self.prefix)
             det = [d for b, d in res.failures if b == bucket]
             r["failures"].append(
